@@ -777,6 +777,9 @@ class ValueDate(Value):
         return self.value == other.value
 
     def __lt__(self, other):
+        if other.isNumerical():
+            # among numbers a date sorts as the number it renders as
+            return int(str(self)) < other.value
         if not isinstance(other, ValueDate):
             return str(self) < str(other)
         return self.value < other.value
@@ -820,6 +823,8 @@ class ValueDecimal(Value):
         return self.value == other.asDecimal().value
 
     def __lt__(self, other):
+        if isinstance(other, ValueDate):
+            return self.value <= int(str(other))
         if not other.isNumerical():
             return str(self) < str(other)
         return self.value < other.asDecimal().value
@@ -958,6 +963,8 @@ class ValueInt(Value):
         return self.value == other.value
 
     def __lt__(self, other):
+        if isinstance(other, ValueDate):
+            return self.value <= int(str(other))
         if not other.isNumerical():
             return str(self) < str(other)
         if isinstance(other, ValueDecimal):
